@@ -297,8 +297,15 @@ def gen_svg_set(rng, n_glyphs=None, gradients=True, groups=True, special_colors=
         i = 0
         while i < len(items):
             if groups and not solid_only and len(items) - i >= 2 and rng.random() < 0.3:
-                k = rng.randint(2, min(3, len(items) - i))
-                body.append(f'<g opacity="{rng.choice([0.5, 0.25, 0.75])}">' + "".join(emit(s) for s in items[i:i + k]) + "</g>")
+                k = rng.randint(2, min(4, len(items) - i))
+                inner = [emit(s) for s in items[i:i + k]]
+                if rng.random() < 0.4:
+                    # a translucent group nested in a translucent group (picosvg keeps the nesting)
+                    a = rng.randint(0, k - 1)
+                    b = rng.randint(a + 1, k)
+                    if b - a < k or rng.random() < 0.3:
+                        inner = inner[:a] + [f'<g opacity="{rng.choice([0.5, 0.25, 0.75])}">' + "".join(inner[a:b]) + "</g>"] + inner[b:]
+                body.append(f'<g opacity="{rng.choice([0.5, 0.25, 0.75])}">' + "".join(inner) + "</g>")
                 i += k
             else:
                 body.append(emit(items[i]))
@@ -462,6 +469,53 @@ def make_var_opacity_case(seed, fmt="glyf_colr_0"):
             "family": "var-opacity"}
 
 
+def make_nested_group_case(seed, fmt="picosvg"):
+    """translucent groups nested two and three deep, with shapes before, between and after the inner groups (paint order and the product of
+    the opacities both matter)"""
+    import random
+
+    r = random.Random(seed)
+    cols = r.sample(["#FF0000", "#00AA00", "#0000FF", "#FFCC00", "#7F3FBF", "#10A0C0", "#222222"], 6)
+    op = lambda: r.choice(["0.5", "0.25", "0.75"])
+
+    def rect(n):
+        x, y = 6 + 13 * n, 8 + 11 * n
+        return f'<path d="M{x},{y} L{x + 34},{y} L{x + 34},{y + 30} L{x},{y + 30} Z" fill="{cols[n]}"' + (f' opacity="{op()}"' if r.random() < 0.3 else "") + "/>"
+
+    deep = r.random() < 0.5
+    inner2 = f'<g opacity="{op()}">{rect(3)}</g>' if deep else rect(3)
+    body = (rect(0) + f'<g opacity="{op()}">' + rect(1) + f'<g opacity="{op()}">' + rect(2) + inner2 + "</g>" + rect(4) + "</g>" + rect(5))
+    svg = f'<svg xmlns="http://www.w3.org/2000/svg" viewBox="0 0 100 100">{body}</svg>'
+    cfg = {"color_format": fmt, "upem": 1024, "ascender": 950, "descender": -250, "width": 1275, "reuse_tolerance": r.choice([0.1, -1]),
+           "keep_glyph_names": True}
+    return {"id": f"nested-groups:{fmt}:{seed}", "seed": seed, "fmt": fmt, "svgs": [svg], "config": cfg, "codepoints": [[0xE000]],
+            "family": "nested-groups"}
+
+
+def make_colored_notdef_case(seed, fmt="picosvg"):
+    """a coloured `.notdef` among the inputs, at any position, sharing a shape (moved) with an ordinary glyph that comes before or after it"""
+    import random
+
+    r = random.Random(seed)
+    tri = lambda dx, dy: f"M{20 + dx},{70 + dy} L{50 + dx},{20 + dy} L{80 + dx},{70 + dy} Z"
+    frame = "M10,10 L90,10 L90,90 L10,90 Z M20,20 L20,80 L80,80 L80,20 Z"
+    hept = "M50,12 L80,27 L88,60 L67,86 L33,86 L12,60 L20,27 Z"
+    ell = "M15,20 L45,20 L45,50 L30,50 L30,80 L15,80 Z"
+    glyphs = [
+        ((0x41,), None, [(tri(0, 0), "#ff0000"), (hept, "#00aa00")]),
+        ((), ".notdef", [(frame, "#0000ff"), (tri(r.choice([-8, 6]), r.choice([-5, 7])), "#aa00aa")]),
+        ((0x42,), None, [(ell, "#00aaaa")] + ([(tri(3, 4), "#222222")] if r.random() < 0.5 else [])),
+    ]
+    pos = r.randrange(3)
+    nd = glyphs.pop(1)
+    glyphs.insert(pos, nd)
+    svgs = ['<svg xmlns="http://www.w3.org/2000/svg" viewBox="0 0 100 100">' + "".join(f'<path d="{d}" fill="{c}"/>' for d, c in shapes) + "</svg>"
+            for _, _, shapes in glyphs]
+    cfg = {"color_format": fmt, "upem": 1000, "ascender": 1000, "descender": 0, "width": 1000, "reuse_tolerance": 0.1, "keep_glyph_names": True}
+    return {"id": f"colored-notdef:{fmt}:{pos}:{seed}", "seed": seed, "fmt": fmt, "svgs": svgs, "config": cfg,
+            "codepoints": [list(c) for c, _, _ in glyphs], "glyph_names": [n for _, n, _ in glyphs], "family": "colored-notdef"}
+
+
 def make_shared_gradient_case(seed, fmt="picosvg"):
     """glyphs that share NO outline (so they end up in different OT-SVG documents) but use identical gradient definitions"""
     import random
@@ -515,7 +569,8 @@ def build(case, picosvgs=None, keep=None):
     try:
         cps = [tuple(c) for c in case["codepoints"]]
         fea = tmp / "f.fea"
-        fea.write_text(features.generate_fea(cps))
+        fea.write_text(features.generate_fea([c for c in cps if c]))
+        names = case.get("glyph_names") or [None] * len(cps)   # optional explicit glyph names (".notdef" with no code points)
         cfg_fields = dict(case["config"])
         tr = cfg_fields.pop("transform", None)
         fmt = cfg_fields["color_format"]
@@ -540,7 +595,7 @@ def build(case, picosvgs=None, keep=None):
                 except Exception as e:  # noqa
                     return {"err": "picosvg:" + type(e).__name__}
         inputs = [
-            write_font.InputGlyph(Path(f"emoji_{i}.svg"), None, cps[i], glyph_name(cps[i]), SVG.fromstring(p.tostring()), None)
+            write_font.InputGlyph(Path(f"emoji_{i}.svg"), None, cps[i], names[i] or glyph_name(cps[i]), SVG.fromstring(p.tostring()), None)
             for i, p in enumerate(picosvgs)
         ]
         try:
